@@ -251,3 +251,15 @@ Theorem C17_raw_export_normalised :
   key_error (raw_export ids idr strs net iso) = false.
 Proof. exact normalise_raw_export. Qed.
 Print Assumptions C17_raw_export_normalised.
+
+(** Undirected inputs at the attribute level (conversion.py:_as_bipartite on an nx.Graph; [orient_raw]: every stored edge is oriented by
+    its role, the reaction end found by kind == "reaction" or (kind absent and bipartite == 1)).  For every network, every identifier
+    assignment with species and reaction ids distinct and WHICHEVER way the undirected graph stores each edge ([flips]), orienting gives
+    back the directed raw export — so [C17_raw_export_normalised] (and with it [C17_S_node_ids]) covers undirected inputs
+    ([run_raw_und] evaluates the attribute layer after [orient_raw] on the graph as networkx stores it). *)
+Theorem C17_undirected_raw_input :
+  forall (ids idr : str -> N) (strs : N -> str) (net : list rxn) (iso : list str) (flips : list bool),
+  (forall s e, In s (species_set net iso) -> In e net -> ids s <> idr (rid e)) ->
+  orient_raw (undirected_raw flips (raw_export ids idr strs net iso)) = raw_export ids idr strs net iso.
+Proof. intros ids idr strs net iso flips H. exact (orient_undirected_raw ids idr strs net iso H flips). Qed.
+Print Assumptions C17_undirected_raw_input.
